@@ -127,7 +127,12 @@ func runC02(r *ev.Run) {
 					nonEmpty++
 				}
 				for _, v := range genVariants(rng, full, m, ids, 3) {
-					got, err := applyOpts(s.search(o).WithQuery(cloneF32(q)), v).Execute()
+					bq := applyOpts(s.search(o).WithQuery(cloneF32(q)), v)
+					got, err := bq.Execute()
+					if err == nil && rng.IntN(4) == 0 {
+						checkReexecute(rep, kind, bq, got)
+						r.Count("probes:re-executed-search-object", 1)
+					}
 					if err != nil {
 						rep(kind+".search-error", err.Error())
 						continue
@@ -279,6 +284,23 @@ func runC02(r *ev.Run) {
 			c := rng.IntN(10)
 			switch {
 			case c < 5 || len(m.live) == 0:
+				if rng.IntN(8) == 0 {
+					// a rejected Add (wrong dimension; zero vector under cosine) leaves the index as it was
+					bad := make([]float32, s.dim+1)
+					for j := range bad {
+						bad[j] = 1
+					}
+					what := "wrong dimension"
+					if metric == comet.Cosine && rng.IntN(2) == 0 {
+						bad, what = make([]float32, s.dim), "zero vector under cosine"
+					}
+					hist = append(hist, histOp{Op: "rejected-add (" + what + ")"})
+					if err := s.idx.Add(*comet.NewVectorNodeWithID(ids.absent(), bad)); err == nil {
+						rep(kind+".invalid-add-accepted", fmt.Sprintf("Add accepted a vector with %s", what))
+						return
+					}
+					r.Count("ops:rejected-add", 1)
+				}
 				id, v := ids.next(), vg.fresh()
 				hist = append(hist, histOp{Op: "add", ID: id, Vec: cloneF32(v)})
 				if err := s.idx.Add(*comet.NewVectorNodeWithID(id, cloneF32(v))); err != nil {
